@@ -229,7 +229,9 @@ func vLookupRegion(c *client, ctx context.Context, table, key []byte) (hrpc.Regi
 		}
 	}
 	if r := e.replacedFor[k]; r != nil {
-		return r, "rs1:1", nil
+		// a meta scan builds a fresh RegionInfo every time (an object that was evicted and marked
+		// dead meanwhile must not come back from a later lookup)
+		return vMkRegion(0, r.ID(), r.StartKey(), r.StopKey()), "rs1:1", nil
 	}
 	// the region is where it was; build a fresh RegionInfo like a meta scan does
 	return vMkRegion(0, id, start, stop), "rs0:1", nil
